@@ -22,13 +22,13 @@ type refOp struct {
 }
 
 type refWorld struct {
-	doc     *document.Document
-	atoms   map[string]int
-	used    map[string]bool // ids the oracle knows the body uses
-	foreignNumbering bool
+	doc                *document.Document
+	atoms              map[string]int
+	used               map[string]bool // ids the oracle knows the body uses
+	foreignNumbering   bool
 	listAddedToForeign bool
-	tableTemplate bool
-	apiStyles map[string]bool // custom styles created and not removed
+	tableTemplate      bool
+	apiStyles          map[string]bool // custom styles created and not removed
 }
 
 func (w *refWorld) atom(id string) int {
@@ -58,10 +58,10 @@ func managerIDs(d *document.Document) []string {
 }
 
 type refObs struct {
-	Defined, Used    []string
-	NumUsed, NumDef  []string
-	AbstractMissing  []string
-	WF               string
+	Defined, Used   []string
+	NumUsed, NumDef []string
+	AbstractMissing []string
+	WF              string
 }
 
 func observeRefs(d *document.Document) (*refObs, error) {
